@@ -796,11 +796,42 @@ _CTX_CASES = [
     ("from_btc_per_kvbyte", "0.000123456", False), ("from_btc_per_kvbyte", "0.00012345", False),
     ("sats_per_vbyte", 0, False), ("sats_per_vbyte", 1, False), ("sats_per_vbyte", 1500, False),
     ("sats_per_vbyte", 1234567891, False), ("sats_per_vbyte", 10**18 + 1, False), ("sats_per_vbyte", 10**30 + 1, False),
+    # the JSON amount fields, BIP21's amount and the caller's `dust` Decimal
+    ("txout_to_dict", 0, False), ("txout_to_dict", 1, False), ("txout_to_dict", 10**10, False), ("txout_to_dict", 123456789, False),
+    ("txout_to_dict", 2099999999999999, False), ("txout_to_dict", 2100000000000000, False), ("txout_to_dict", 10**15, False),
+    ("txout_from_dict", "1E+2", False), ("txout_from_dict", "1e+2", False), ("txout_from_dict", "20999999.99999999", False),
+    ("txout_from_dict", "0.000000010", False), ("txout_from_dict", "1e-9", False), ("txout_from_dict", "2.1E+7", False),
+    ("txout_from_dict", "21000000.00000001", False), ("txout_from_dict", "0E-400", False), ("txout_from_dict", "sNaN", False),
+    ("tx_from_dict", "1E+2", False), ("tx_from_dict", "0.123456789", False), ("tx_from_dict", "20999999.99999999", False),
+    ("bip21", "1E+2", False), ("bip21", "0.00000001", False), ("bip21", "20999999.99999999", False), ("bip21", "0.5", True),
+    ("bip21", "1e-9", False), ("bip21", "2.1E+7", True),
+    ("valid_btc_amount_dust", ["0.00000546", "0.00000546"], False), ("valid_btc_amount_dust", ["0.00000545", "0.00000546"], False),
+    ("valid_btc_amount_dust", ["1", "1.0000000000000000000000000000000000001"], False),
+    ("valid_btc_amount_dust", ["20999999.99999999", "1E-400"], False), ("valid_btc_amount_dust", ["0", "-1E+400"], False),
 ]
 _CTX_SIGNALS = ["Clamped", "DivisionByZero", "Inexact", "Overflow", "Rounded", "Subnormal", "Underflow", "FloatOperation",
                 "InvalidOperation"]
 _CTX_ROUNDINGS = ["ROUND_CEILING", "ROUND_DOWN", "ROUND_FLOOR", "ROUND_HALF_DOWN", "ROUND_HALF_EVEN", "ROUND_HALF_UP",
                   "ROUND_UP", "ROUND_05UP"]
+
+
+def _context_fields():
+    """the attributes a decimal.Context has, read off the class (constructor parameters + public data attributes):
+    a Python whose Context grows a field makes `amount.context_fields` fail until the generator below varies it"""
+    import decimal
+    import inspect
+    c = decimal.Context()
+    names = {a for a in dir(c) if not a.startswith("_") and not callable(getattr(c, a))}
+    names |= {p for p in inspect.signature(decimal.Context).parameters if not p.startswith("_")}
+    return sorted(names)
+
+
+_CTX_VARIED = ["Emax", "Emin", "capitals", "clamp", "flags", "prec", "rounding", "traps"]
+
+
+def _o_context_fields(w):
+    got = _context_fields()
+    return got == _CTX_VARIED, f"decimal.Context attributes {got}; varied by the generator: {_CTX_VARIED}"
 
 
 def _rand_context(rng):
@@ -810,18 +841,54 @@ def _rand_context(rng):
             "Emin": rng.choice([0, -1, -5, -7, -8, -9, -20, -999999, -999999999999999999]),
             "capitals": rng.choice([0, 1]), "clamp": rng.choice([0, 1]),
             "rounding": rng.choice(_CTX_ROUNDINGS),
-            "traps": sorted(sg for sg in _CTX_SIGNALS if rng.random() < 0.4)}
+            "traps": sorted(sg for sg in _CTX_SIGNALS if rng.random() < 0.4),
+            "flags": sorted(sg for sg in _CTX_SIGNALS if rng.random() < 0.3),
+            # the same fields written into decimal.DefaultContext as well (what `Context(prec=…)` copies the
+            # fields it is not given from, at the time it is called)
+            "default": rng.random() < 0.25}
+
+
+_TXOUT_DICT = {}
+
+
+def _txout_dict(value_text):
+    if not _TXOUT_DICT:
+        _TXOUT_DICT.update(TxOut(0, PAY).to_dict())
+    return dict(_TXOUT_DICT, value=value_text)
+
+
+def _bip21(x):
+    from btclib.bip21 import Bip21
+    uri = Bip21("bc1qq6hag67dl53wl99vzg42z8eyzfz2xlkvxechjp", x).serialize()
+    return uri, Bip21.parse(uri).amount
+
+
+_CTX_FNS = {
+    "valid_btc_amount": lambda x: __import__("btclib.amount", fromlist=["x"]).valid_btc_amount(x),
+    # the second argument is a Decimal of the caller's: compared inside the library's context
+    "valid_btc_amount_dust": lambda x: __import__("btclib.amount", fromlist=["x"]).valid_btc_amount(x[0], Decimal(x[1])),
+    "sats_from_btc": lambda x: sats_from_btc(x),
+    "btc_from_sats": lambda x: btc_from_sats(x),
+    "from_sats_per_vbyte": lambda x: FeeRate.from_sats_per_vbyte(x).sats_per_kvbyte,
+    "from_btc_per_kvbyte": lambda x: FeeRate.from_btc_per_kvbyte(x).sats_per_kvbyte,
+    "sats_per_vbyte": lambda k: _rate(k).sats_per_vbyte,
+    # the JSON amount fields: TxOut.to_dict writes str(btc_from_sats(value)) and from_dict reads it back with
+    # sats_from_btc; the TEXT may differ in the case of the exponent letter (Decimal.__str__ reads the caller's
+    # `capitals`), the amount it denotes may not
+    "txout_to_dict": lambda v: (lambda d: (d["value"].upper(), TxOut.from_dict(d).value))(TxOut(v, PAY).to_dict()),
+    "txout_from_dict": lambda x: TxOut.from_dict(_txout_dict(x)).value,
+    "tx_from_dict": lambda x: Tx.from_dict({"version": 2, "locktime": 0, "vin": [], "vout": [_txout_dict(x)]},
+                                           check_validity=False).vout[0].value,
+    "bip21": _bip21,
+}
 
 
 def _o_amount_anycontext(w):
-    """the conversions read NO field of the caller's decimal context: precision, Emax/Emin, clamp, capitals, rounding
-    and traps may be anything, the answer (exact value and representation, or the library's refusal) is the one
-    given under the default context."""
+    """the conversions read NO field of the caller's decimal context: precision, Emax/Emin, clamp, capitals, rounding,
+    flags and traps may be anything, the answer (exact value and representation, or the library's refusal) is the one
+    given under the default context -- and the caller's context is left as it was, flags included."""
     import decimal
-    fn = {"valid_btc_amount": __import__("btclib.amount", fromlist=["x"]).valid_btc_amount, "sats_from_btc": sats_from_btc,
-          "btc_from_sats": btc_from_sats, "from_sats_per_vbyte": lambda x: FeeRate.from_sats_per_vbyte(x).sats_per_kvbyte,
-          "from_btc_per_kvbyte": lambda x: FeeRate.from_btc_per_kvbyte(x).sats_per_kvbyte,
-          "sats_per_vbyte": lambda k: _rate(k).sats_per_vbyte}[w["fn"]]
+    fn = _CTX_FNS[w["fn"]]
     x = Decimal(w["x"]) if w.get("decimal") else w["x"]
 
     def run():
@@ -829,16 +896,43 @@ def _o_amount_anycontext(w):
             v = fn(x)
         except Exception as e:  # noqa: BLE001
             return ("err", common.err_class(e))
+        if isinstance(v, tuple):
+            v = tuple(tuple(e.as_tuple()) if isinstance(e, Decimal) else e for e in v)
         return ("ok", tuple(v.as_tuple()) if isinstance(v, Decimal) else v)
     plain = run()
     c = w["ctx"]
-    caller = decimal.Context(prec=c["prec"], Emax=c["Emax"], Emin=c["Emin"], capitals=c["capitals"], clamp=c["clamp"],
-                             rounding=getattr(decimal, c["rounding"]), traps=[getattr(decimal, t) for t in c["traps"]])
-    with localcontext(caller) as live:
-        theirs = run()
-        untouched = (live.prec, live.Emax, live.Emin, live.capitals, live.clamp, live.rounding,
-                     sorted(k.__name__ for k, v in live.traps.items() if v)) == (
-                     c["prec"], c["Emax"], c["Emin"], c["capitals"], c["clamp"], c["rounding"], sorted(c["traps"]))
+
+    def build():
+        return decimal.Context(prec=c["prec"], Emax=c["Emax"], Emin=c["Emin"], capitals=c["capitals"], clamp=c["clamp"],
+                               rounding=getattr(decimal, c["rounding"]), traps=[getattr(decimal, t) for t in c["traps"]],
+                               flags=[getattr(decimal, t) for t in c.get("flags", [])])
+
+    def state(k):
+        return (k.prec, k.Emax, k.Emin, k.capitals, k.clamp, k.rounding, sorted(s.__name__ for s, v in k.traps.items() if v),
+                sorted(s.__name__ for s, v in k.flags.items() if v))
+    want = (c["prec"], c["Emax"], c["Emin"], c["capitals"], c["clamp"], c["rounding"], sorted(c["traps"]),
+            sorted(c.get("flags", [])))
+    saved = decimal.DefaultContext.copy() if c.get("default") else None
+    try:
+        if saved is not None:
+            src = build()
+            for a in ("prec", "Emax", "Emin", "capitals", "clamp", "rounding"):
+                setattr(decimal.DefaultContext, a, getattr(src, a))
+            for sg in src.traps:
+                decimal.DefaultContext.traps[sg] = src.traps[sg]
+                decimal.DefaultContext.flags[sg] = src.flags[sg]
+        with localcontext(build()) as live:
+            theirs = run()
+            untouched = state(live) == want
+        if saved is not None:
+            untouched = untouched and state(decimal.DefaultContext) == want
+    finally:
+        if saved is not None:
+            for a in ("prec", "Emax", "Emin", "capitals", "clamp", "rounding"):
+                setattr(decimal.DefaultContext, a, getattr(saved, a))
+            for sg in saved.traps:
+                decimal.DefaultContext.traps[sg] = saved.traps[sg]
+                decimal.DefaultContext.flags[sg] = saved.flags[sg]
     ok = plain == theirs and not str(plain[1]).startswith("foreign") and untouched
     return ok, f"{w['fn']}({x!r}): default context {plain}, caller's context {c} -> {theirs}, caller's context untouched: {untouched}"
 
@@ -872,6 +966,7 @@ ORACLES = {
     "amount.context": _o_amount_context,
     "amount.traps": _o_amount_traps,
     "amount.anycontext": _o_amount_anycontext,
+    "amount.context_fields": _o_context_fields,
     "feerate.units": _o_feerate_units,
     "feerate.context": _o_feerate_context,
     "feerate.bounded_time": _o_bounded_time,
@@ -1107,6 +1202,7 @@ def _run_amount(ctx):
     # every field of the caller's decimal.Context varied at once (Emax/Emin, clamp, capitals, rounding, prec, traps)
     edge_ctx = {"prec": 28, "Emax": 5, "Emin": -999999, "capitals": 1, "clamp": 0, "rounding": "ROUND_HALF_EVEN",
                 "traps": ["DivisionByZero", "InvalidOperation", "Overflow"]}
+    ctx.check("amount.context_fields", {})
     for fn, x, dec in _CTX_CASES:
         for cx in (edge_ctx, dict(edge_ctx, Emax=999999, Emin=-5, traps=["Subnormal", "Underflow", "Clamped"]),
                    dict(edge_ctx, Emax=0, Emin=0, clamp=1, capitals=0, rounding="ROUND_UP")):
@@ -1122,6 +1218,11 @@ def _run_amount(ctx):
             x, dec = str(d), rng.random() < 0.5 and d.is_finite()
         elif fn == "from_sats_per_vbyte" and rng.random() < 0.5:
             x = str(_rand_dec(rng, 3))
+        elif fn == "txout_to_dict" and rng.random() < 0.7:
+            x = rng.choice([rng.randrange(0, MAX_SATS + 1), rng.randrange(0, 10**rng.randrange(1, 8)) * 10**rng.randrange(8, 10)])
+        elif fn in ("txout_from_dict", "tx_from_dict", "bip21") and rng.random() < 0.7:
+            d = _rand_dec(rng, 8)
+            x, dec = str(d), fn == "bip21" and rng.random() < 0.5 and d.is_finite()
         ctx.check("amount.anycontext", {"fn": fn, "x": x, "decimal": bool(dec), "ctx": _rand_context(rng)},
                   key="amount.context-emax")
     for fn, x, dec in (("valid_btc_amount", "0.123456789", False), ("sats_from_btc", "1.000000001", True),
